@@ -1,6 +1,7 @@
 package main
 
 import (
+	"sync"
 	"bytes"
 	"encoding/json"
 	"fmt"
@@ -201,7 +202,68 @@ func tryReplay(cfg *runCfg, g *Gen, o *Obligation, dir string) (bool, string) {
 	return false, "replay: no replay template for this function; no concrete failing input reproduced on the real code\n"
 }
 
+// replayIDL: first the solver's model (and its neighbourhood) against the failed function's own
+// contract; when that reproduces nothing and the property is one of the parser's input/output
+// properties, a seeded bounded search over grammar-conformant descriptions and their single-edit
+// mutations, judged at idl.New by an oracle written from the property statements.
 func replayIDL(cfg *runCfg, g *Gen, o *Obligation, dir string) (bool, string) {
+	ok, rep := replayIDLModel(cfg, g, o, dir)
+	if ok || (cfg.prop != "C05" && cfg.prop != "C06" && cfg.prop != "C09") {
+		return ok, rep
+	}
+	ok2, rep2 := idlSearch(cfg, o, dir)
+	return ok2, rep + rep2
+}
+
+var idlSearchCache struct {
+	sync.Mutex
+	done bool
+	ok   bool
+	rep  string
+}
+
+func idlSearch(cfg *runCfg, o *Obligation, dir string) (bool, string) {
+	idlSearchCache.Lock()
+	defer idlSearchCache.Unlock()
+	if idlSearchCache.done {
+		return idlSearchCache.ok, idlSearchCache.rep
+	}
+	idlSearchCache.done = true
+	tmpl, err := os.ReadFile(filepath.Join(cfg.verif, "replay_templates", "idl_roundtrip_test.go.tmpl"))
+	if err != nil {
+		idlSearchCache.rep = "search: template missing\n"
+		return false, idlSearchCache.rep
+	}
+	n := "1500"
+	if cfg.tier == "thorough" {
+		n = "15000"
+	}
+	src := strings.NewReplacer("@@OBLIGATION@@", o.Name, "@@SEED@@", strconv.Itoa(cfg.seed+1), "@@N@@", n).Replace(string(tmpl))
+	testFile := filepath.Join(dir, "idl_search_"+cfg.prop+"_test.go")
+	os.WriteFile(testFile, []byte(src), 0o644)
+	out, rerr := runOverlayTest(cfg, "varlink/idl", testFile, "TestVerifReplay", false)
+	var rep strings.Builder
+	fmt.Fprintf(&rep, "property-level search (not derived from this obligation's model): grammar-conformant descriptions and single-edit mutations through the real idl.New, seed %d, %s base descriptions\nsearch test: %s\n", cfg.seed+1, n, testFile)
+	for _, l := range strings.Split(out, "\n") {
+		if strings.HasPrefix(l, "REPLAY-FAIL") {
+			idlSearchCache.ok = true
+			rep.WriteString(l + "\n")
+		}
+		if strings.HasPrefix(l, "REPLAY-DONE") {
+			rep.WriteString(l + "\n")
+		}
+	}
+	if !idlSearchCache.ok {
+		if rerr != nil {
+			fmt.Fprintf(&rep, "search run: %v\n%s\n", rerr, firstLines(out, 20))
+		}
+		rep.WriteString("search: no failing input found\n")
+	}
+	idlSearchCache.rep = rep.String()
+	return idlSearchCache.ok, idlSearchCache.rep
+}
+
+func replayIDLModel(cfg *runCfg, g *Gen, o *Obligation, dir string) (bool, string) {
 	fx := o.fx
 	fn := fx.fn
 	var rep strings.Builder
